@@ -21,16 +21,24 @@ def expectTok (what : Tok) : List Tok → Res (List Tok)
   | [] => .err .expectedOpNotExist
   | t :: r => if t = what then .ok r else .err .expectedOpNotExist
 
-def isNotTok : List Tok → Bool
-  | .op o :: _ => o == notName
-  | _ => false
+/-- The operator at the head of the input, looking through a leading `not` (`Parser::peek_infix`):
+`(negated, operator name, the tokens after it)`; `none` if the head is not an operator token, or is
+a `not` that is not followed by an operator token. -/
+def headOp : List Tok → Option (Bool × Name × List Tok)
+  | .op o :: rest =>
+    if o == notName then
+      (match rest with
+        | .op o2 :: rest2 => some (true, o2, rest2)
+        | _ => none)
+    else some (false, o, rest)
+  | _ => none
 
-/-- `Parser::peek_infix`: the operator at the head of the input — the current token, or the
-one after it when `skipNot` — is it infix, and its binding powers. -/
-def peekInfix (regs : Regs) (skipNot : Bool) (toks : List Tok) : Bool × Int × Int :=
-  match (if skipNot then toks.drop 1 else toks) with
-  | .op o :: _ => (regs.isInfix o, regs.bp o)
-  | _ => (false, -1, -1)
+/-- The recursion gate: the right operand continues iff the next operator (through `not`) is an
+infix operator whose left binding power exceeds `r`. -/
+def gateOpen (regs : Regs) (r : Int) (toks : List Tok) : Bool :=
+  match headOp toks with
+  | some (_, o2, _) => regs.isInfix o2 && decide (r < (regs.bp o2).1)
+  | none => false
 
 def wrapNot (isNot : Bool) (e : AST) : AST := if isNot then .unary notName e else e
 
@@ -76,6 +84,7 @@ def parseToken (regs : Regs) (lim : Nat) (fuel : Nat) (d : Nat) (toks : List Tok
     | .delim _ :: _ => .err .noOpenDelim
     | .comma :: _ => .err .unexpectedToken
     | .semi :: _ => .err .unexpectedToken
+termination_by structural fuel
 
 /-- `parse_primary`: a token-level expression with at most one postfix operator. -/
 def parsePrimary (regs : Regs) (lim : Nat) (fuel : Nat) (d : Nat) (toks : List Tok) : PR :=
@@ -88,6 +97,7 @@ def parsePrimary (regs : Regs) (lim : Nat) (fuel : Nat) (d : Nat) (toks : List T
       if regs.isPostfix o then (node lim h).bind fun h' => .ok (.postfix lhs o, h', r1)
       else .ok (lhs, h, r)
     | _ => .ok (lhs, h, r)
+termination_by structural fuel
 
 /-- `parse_expression`. -/
 def parseExpression (regs : Regs) (lim : Nat) (fuel : Nat) (d : Nat) (toks : List Tok) : PR :=
@@ -97,6 +107,7 @@ def parseExpression (regs : Regs) (lim : Nat) (fuel : Nat) (d : Nat) (toks : Lis
     if d + 1 > lim then .err .nestingTooDeep else
     (parsePrimary regs lim fuel (d + 1) toks).bind fun (lhs, h, r) =>
     parseOp regs lim fuel (d + 1) 0 lhs h r
+termination_by structural fuel
 
 /-- `parse_op`: the operator loop at minimum binding power `p` with left operand `lhs`. -/
 def parseOp (regs : Regs) (lim : Nat) (fuel : Nat) (d : Nat) (p : Int) (lhs : AST) (lhsH : Nat)
@@ -113,25 +124,22 @@ def parseOp (regs : Regs) (lim : Nat) (fuel : Nat) (d : Nat) (p : Int) (lhs : AS
         (parseExpression regs lim fuel d r2).bind fun (b, bH, r3) =>
         (node lim (max (max lhsH aH) bH)).bind fun h => .ok (.ternary lhs a b, h, r3)
       else
-        let isNot := o == notName
-        let (isBin, l, r) := peekInfix regs isNot toks
-        if isNot && !isBin then .err .expectBinOpToken
-        else if l < p then .ok (lhs, lhsH, toks)
-        else
-          let (opName, afterOp) : Name × List Tok :=
-            if isNot then (match rest with | .op o2 :: rest2 => (o2, rest2) | _ => ([], rest)) else (o, rest)
-          (parsePrimary regs lim fuel d afterOp).bind fun (rhs, rhsH, r1) =>
-          let (nextBin, cl, _) := peekInfix regs (isNotTok r1) r1
-          let cont : PR :=
-            if nextBin && r < cl then
-              if d + 1 > lim then .err .nestingTooDeep
-              else parseOp regs lim fuel (d + 1) r rhs rhsH r1
-            else .ok (rhs, rhsH, r1)
-          cont.bind fun (rhs', rhsH', r2) =>
-          (node lim (max lhsH rhsH')).bind fun h =>
-          (if isNot then node lim h else .ok h).bind fun h2 =>
-          parseOp regs lim fuel d p (wrapNot isNot (.binary opName lhs rhs')) h2 r2
+        match headOp toks with
+        | none => .err .expectBinOpToken
+        | some (neg, opName, afterOp) =>
+          if neg && !regs.isInfix opName then .err .expectBinOpToken
+          else if (regs.bp opName).1 < p then .ok (lhs, lhsH, toks)
+          else
+            (parsePrimary regs lim fuel d afterOp).bind fun (rhs, rhsH, r1) =>
+            (if gateOpen regs (regs.bp opName).2 r1 then
+              (if d + 1 > lim then .err .nestingTooDeep
+               else parseOp regs lim fuel (d + 1) (regs.bp opName).2 rhs rhsH r1)
+             else .ok (rhs, rhsH, r1)).bind fun (rhs', rhsH', r2) =>
+            (node lim (max lhsH rhsH')).bind fun h =>
+            (if neg then node lim h else .ok h).bind fun h2 =>
+            parseOp regs lim fuel d p (wrapNot neg (.binary opName lhs rhs')) h2 r2
     | _ => .ok (lhs, lhsH, toks)
+termination_by structural fuel
 
 /-- The argument loop of `parse_function` (at least one argument; ends at `)`). -/
 def parseArgs (regs : Regs) (lim : Nat) (fuel : Nat) (d : Nat) (toks : List Tok) :
@@ -144,6 +152,7 @@ def parseArgs (regs : Regs) (lim : Nat) (fuel : Nat) (d : Nat) (toks : List Tok)
     | .delim .closeParen :: r1 => .ok ([a], h, r1)
     | _ => (expectTok .comma r).bind fun r1 =>
       (parseArgs regs lim fuel d r1).bind fun (as, h', r2) => .ok (a :: as, max h h', r2)
+termination_by structural fuel
 
 /-- The element loop of `parse_open_bracket` (stops before `]` or at EOF; the caller expects `]`). -/
 def parseListItems (regs : Regs) (lim : Nat) (fuel : Nat) (d : Nat) (toks : List Tok) :
@@ -160,6 +169,7 @@ def parseListItems (regs : Regs) (lim : Nat) (fuel : Nat) (d : Nat) (toks : List
         | .delim .closeBracket :: _ => (.ok r : Res (List Tok))
         | _ => expectTok .comma r).bind fun r1 =>
       (parseListItems regs lim fuel d r1).bind fun (as, h', r2) => .ok (a :: as, max h h', r2)
+termination_by structural fuel
 
 /-- The entry loop of `parse_open_brace`. -/
 def parseMapItems (regs : Regs) (lim : Nat) (fuel : Nat) (d : Nat) (toks : List Tok) :
@@ -179,6 +189,7 @@ def parseMapItems (regs : Regs) (lim : Nat) (fuel : Nat) (d : Nat) (toks : List 
         | _ => expectTok .comma r2).bind fun r3 =>
       (parseMapItems regs lim fuel d r3).bind fun (kvs, h', r4) =>
         .ok ((k, v) :: kvs, max (max hk hv) h', r4)
+termination_by structural fuel
 
 end
 
